@@ -830,6 +830,9 @@ class Gen:
         c = r.random()
         if c < 0.25:
             return {"op": "reindex"}
+        if self.prof.get("other_db") and r.random() < self.prof["other_db"]:
+            return {"op": "other_db", "dialect": r.choice(
+                ["default", "semicolon_all", "tab", "pipe_sq", "lf"])}
         cfgc = {}
         op = {"op": "reopen", "how": "close", "cfg": cfgc}
         if self.prof["abandon"] and r.random() < self.prof["abandon"] and \
@@ -937,6 +940,13 @@ class Gen:
             n = r.choice([0, 0, 1, 2])
             op["cfault"] = {"which": which, "n": n, "kind": "ret",
                             "value": val}
+            if which == "fields" and r.random() < 0.35:
+                # a bool that compares equal to the number it replaces
+                op["cfault"] = {"which": "fields", "n": r.choice([1, 1, 2]),
+                                "kind": "boolify"}
+                op["spec"]["fields"] = {"fn": r.choice(
+                    ["identity", "merge_const"]), "arg": {
+                    r.choice(self.alpha["fk"]): r.choice([0, 1, 1.0])}}
             return self.route(op)
         if entry == "insert_nonpoint":
             raw = r.choice([5, "point", None, {"time": 1}, ["p"], 1.5])
